@@ -29,6 +29,7 @@ SHARDS = {"quick": 4, "thorough": 16}
 MIN_REACH = {
     "batch_files_read": {"quick": 2500, "thorough": 30000},
     "contract_evals_choose_batch_settings": {"quick": 300, "thorough": 3000},
+    "crops_given_a_size_and_a_count_that_agree": {"quick": 20, "thorough": 60},
     "reloads_checked": {"quick": 300, "thorough": 3000},
     "resows_accepted": {"quick": 15, "thorough": 60},
     "resows_refused": {"quick": 15, "thorough": 60},
@@ -69,6 +70,13 @@ def cases(ctx):
             yield {"w": {"mode": "grid", "combos": _factor_grid(n, nb + 1), "names": None, "cases": None,
                          "constants": {}, "kind": "int"}, "batchsize": None, "num_batches": nb, "shuffle": False,
                    "where": "ctor", "refused_first": [None, None, "same_object", "new_object"][(n + nb) % 4]}
+    # a size AND a count, agreeing exactly (s * k = N): both clauses hold at once
+    for n in range(1, nmax + 1):
+        for bs in range(1, n + 1):
+            if n % bs == 0:
+                yield {"w": {"mode": "grid", "combos": _factor_grid(n, bs), "names": None, "cases": None,
+                             "constants": {}, "kind": "int"}, "batchsize": bs, "num_batches": n // bs, "shuffle": False,
+                       "where": ["ctor", "sow"][(n + bs) % 2], "both": True}
     cmax = ctx.pick(12, 24)
     for n in range(1, cmax + 1):
         cs = [{"p": i, "q": "s%d" % (i % 3)} for i in range(n)]
@@ -417,7 +425,9 @@ def run_case(ctx, case):
             bad.append("%d batches for N=%d, batchsize=%d (expected ceil = %d)" % (B, n, s, math.ceil(n / s)))
         if rep1[0] != s:
             bad.append("crop reports batchsize %r, requested %d" % (rep1[0], s))
-    elif case["num_batches"] is not None:
+    if case["num_batches"] is not None and (case["batchsize"] is None or case.get("both")):
+        if case.get("both"):
+            ctx.count("crops_given_a_size_and_a_count_that_agree")
         k = case["num_batches"]
         if B != min(k, n):
             bad.append("%d batches for N=%d, num_batches=%d (expected min = %d)" % (B, n, k, min(k, n)))
@@ -425,7 +435,7 @@ def run_case(ctx, case):
             bad.append("batch sizes differ by more than one: %s" % sizes)
         if sizes and not all(v in (rep1[0], rep1[0] + 1) for v in sizes.values()):
             bad.append("crop reports batchsize %r but batches have sizes %s" % (rep1[0], sorted(set(sizes.values()))))
-    else:
+    if case["batchsize"] is None and case["num_batches"] is None:
         if B != n or any(v != 1 for v in sizes.values()):
             bad.append("default batching is not one setting per batch: %s" % sizes)
     if rep1[1] != B or rep1[2] != B:
